@@ -124,6 +124,33 @@ def holds_at(stmt):
     return out
 
 
+def resolved(defs, e):
+    """e itself, or - when e is a local with exactly one definition - the defining expression (temporaries are inlined in the
+    canonical model where that is provably behaviour-preserving; elsewhere they remain: a rule reads both forms through this)"""
+    seen = 0
+    while isinstance(e, ast.Name) and seen < 6:
+        dv = defs.get(e.id, [])
+        if len(dv) != 1 or not isinstance(dv[0][1], ast.AST):
+            break
+        e = dv[0][1]
+        seen += 1
+    return e
+
+
+def iter_value(fnode, lp):
+    """(expression the loop ranges over, statement that produced it): the loop's own iterable, or - when that is a local - the closest
+    definition above the loop (both forms occur: a list held in a temporary, or written in the loop header)"""
+    from ..model import walk_no_nested
+    if not isinstance(lp.iter, ast.Name):
+        return lp.iter, lp
+    ds = [x for x in walk_no_nested(fnode) if isinstance(x, ast.Assign) and len(x.targets) == 1 and isinstance(x.targets[0], ast.Name) and
+          x.targets[0].id == lp.iter.id and x.lineno < lp.lineno]
+    if not ds:
+        return lp.iter, lp
+    d = max(ds, key=lambda x: x.lineno)
+    return d.value, d
+
+
 def is_none(e):
     return isinstance(e, ast.Constant) and e.value is None
 
